@@ -54,10 +54,16 @@ CLAIMED["C14"] = {
             "access mode), io_counters (line loop with invariant over the symbolic /proc/<pid>/io: six counters under "
             "the documented names, blank/malformed lines ignored, RuntimeError/ValueError cases) and num_fds, each "
             "through the real wrap_exceptions decorator; table: no caching decorator / oneshot cache on the three "
-            "readers. open_files()' descriptor scan is covered by a bounded sweep over generated descriptor tables incl. "
-            "descriptors closing at readlink, at the fdinfo open and at the fdinfo read (labelled bounded).",
-    "note": "io record grammar assumed; procfs environment model; O_* values of the running platform; bounded part "
-            "never counted as proved.",
+            "readers. open_files()' descriptor scan (the undecorated method body) is under contract for descriptor "
+            "tables of 0..2 entries (3 in the thorough tier): every readlink outcome per descriptor (regular file at an "
+            "absolute path, other absolute target, non-absolute target, ENOENT, ESRCH, EINVAL, ENAMETOOLONG, any other "
+            "errno), every fdinfo outcome, symbolic paths / positions / flag words: rows exactly for the regular files "
+            "with readable fdinfo, one liveness check exactly when a descriptor vanished, only unexpected errors "
+            "propagate. A bounded sweep over generated descriptor tables on a fake procfs stays as a second check "
+            "(labelled bounded).",
+    "note": "io record grammar assumed; procfs environment model; O_* values of the running platform; the descriptor "
+            "scan is proved per table size (SHAPE BOUND n <= 2/3, values unbounded); fdinfo first two lines assumed to "
+            "be 'pos:' decimal and 'flags:' octal (kernel fs/proc/fd.c).",
     "ref": "DESIGN.md section 5 (C14)",
 }
 
